@@ -1021,19 +1021,97 @@ Theorem election_safety_membership_change_core_partial :
 Proof. exact election_safety_of_minv. Qed.
 Print Assumptions election_safety_membership_change_core_partial.
 
+From BLB Require Import Raft.MemberConfTrack.
+
+(* [FULL] invariant (a), node level, any event of the alphabet without snapshots (no SnapshotDone, no delivered InstallSnap, proposals
+   carry no configuration entries; AddNode, RemoveNode, bootstrap, restart and every crash point included): if the node has no
+   snapshot, its log entries have positive indices and the configuration it holds is the decoded latest configuration entry of
+   its log (none if there is none), the same holds after the event. Covers truncation by a follower (keep or recompute), the
+   entries a follower appends, the configuration entry the leader appends for AddNode and RemoveNode, and newCore *)
+Theorem configuration_tracks_log :
+  forall s ev k crashed st s',
+    ctw s -> evC ev -> run_event_crash (settle s) ev k = Ret (crashed, st, s') -> ctw s'.
+Proof. exact conf_tracks_step. Qed.
+Print Assumptions configuration_tracks_log.
+
+From BLB Require Import Raft.LogMatchNodeM Raft.LogMatchM.
+
+(* [FULL] node level: the log-matching summary of one event (the unchanged record LogMatchNode.inv) also holds for AddNode and
+   RemoveNode, completed or crashed after any durable mutation; premise for AddNode: the id is not the node itself and, at a
+   leader, not yet in the peer table *)
+Theorem step_summary_with_membership_change :
+  forall s ev k crashed st s',
+    base s -> evokM s ev -> run_event_crash (settle s) ev k = Ret (crashed, st, s') ->
+    LogMatchNode.inv (with_budget (settle s) k) (inp_of ev) (boot_of ev) (rt_of ev) (vq_of ev) (lq_of s) (dc_of ev) (rsp_of ev) s'.
+Proof. exact run_event_crash_lm_M. Qed.
+Print Assumptions step_summary_with_membership_change.
+
+(* [PARTIAL] log matching across membership changes: the system invariant ginvM (ginv of round 2 without the fixed-quorum election
+   invariant and without the configuration-size invariant) is preserved by every step whose touched node satisfies the node-level
+   summary, AddNode and RemoveNode included, PROVIDED the history after the step has one leader per term. OPEN: that proviso is
+   election safety for membership changes, which the mutual induction has to supply step by step *)
+Theorem log_matching_membership_change_step_partial :
+  forall bm be σ G i s ev k s',
+    ginvM bm be σ G ->
+    get_node i (sy_nodes σ) = Some s -> (forall m, ev = EDeliver m -> In m (sy_soup σ) /\ m_to m <> 0) ->
+    evres bm be ev -> nstep s ev k s' ->
+    (forall t a b, In (t, a) (sy_hist (step_sys σ s')) -> In (t, b) (sy_hist (step_sys σ s')) -> a = b) ->
+    ginvM bm be (step_sys σ s') (G ++ rec_of s s').
+Proof. exact ginvM_step_abs. Qed.
+Print Assumptions log_matching_membership_change_step_partial.
+
+From BLB Require Import Raft.MemberLeaderOut Raft.CompletenessAckM Raft.CompletenessVoteM Raft.MemberSafety.
+
+(* [FULL] node level, any event, crash variants included: a node that ends the event as leader has no AppEntsResp in its outbox, and
+   if the event delivered an AppEnts its commit index did not move *)
+Theorem leader_sends_no_acknowledgement :
+  (forall s ev k crashed st s',
+     run_event_crash (settle s) ev k = Ret (crashed, st, s') -> n_role s' = Leader -> noresp s') /\
+  (forall s m k crashed st s' pi pt cm oe,
+     run_event_crash (settle s) (EDeliver m) k = Ret (crashed, st, s') -> m_body m = AppEnts pi pt cm oe ->
+     n_role s' = Leader -> n_commit s' = n_commit s).
+Proof. exact (conj leader_outbox_has_no_ack leader_ignores_appents). Qed.
+Print Assumptions leader_sends_no_acknowledgement.
+
+(* [PARTIAL] the state invariant MS of Raft/MemberSafety.v (EM, the re-based vote / acknowledgement / log-matching invariants, the
+   configuration tracking (a), the peer table (d), the peer-table justification, the leader commit invariant, the three
+   configuration invariants) implies, for that state: every leader-log record of a term U holds every prefix committed in a
+   term below U under the configuration of the committing leader, and two leader-log records of one term belong to one node.
+   No fixed quorum, no premise on the configurations. OPEN: that MS is preserved by the steps of astep (without snapshots) *)
+Theorem membership_change_safety_of_state_invariant_partial :
+  forall bm be a G A CL GR GL,
+    MS bm be a G A CL GR GL ->
+    (forall U c l T L mi C, cmr G A T L mi C -> In (U, c, l) G -> T < U -> keeps l (firstn mi L)) /\
+    (forall U c1 l1 c2 l2, In (U, c1, l1) G -> In (U, c2, l2) G -> c1 <> 0 -> c2 <> 0 -> c1 = c2).
+Proof.
+  intros bm be a G A CL GR GL M. split.
+  - exact (MS_leader_completeness bm be a G A CL GR GL M).
+  - exact (MS_one_leader_per_term bm be a G A CL GR GL M).
+Qed.
+Print Assumptions membership_change_safety_of_state_invariant_partial.
+
 (* NOT YET PROVED (statements kept visible; listed in props/C02.json not_yet_proved):
-   (1) the premise adjP of election_safety_all_membership_changes_partial, i.e. election_safety_membership_change without
-   premise: two nodes that win the same term under configurations C1, C2 hold equal or adjacent configurations. Proved
-   rungs: counted votes come from members; an accepted change is issued only when settled (latest configuration committed,
-   current-term entry committed) and moves the leader's configuration by exactly one member; adjacent quorums intersect.
-   Missing: (a) n_conf of every node = the latest configuration entry of its snapshot+log, and the configuration entries
-   of any log form a chain of single-member steps; (b) at most one uncommitted configuration entry in any log prefix
-   chain; (c) leader completeness for configuration entries under the varying quorums — the mutual induction on the term:
-   a candidate whose configuration is not the committed-or-pending one of the deposed leader lacks a committed entry of
-   that leader's term and is refused by a blocking quorum through the up-to-date test; (d) the acks a leader counts come
-   from members of its configuration (l_peers = members minus self).
-   (2) leader_completeness_membership_change, (3) log_matching_membership_change, (4)
-   state_machine_safety_membership_change over astep (and combined with sstepS): the round 2-5 stack (ginv, ackinv,
-   voteinv, cminv, SI) is built on Election.inv with the fixed quorum of the node set and has to be re-based on EM and
-   per-record quorums.
+   election_safety_membership_change / leader_completeness_membership_change / log_matching_membership_change /
+   state_machine_safety_membership_change as theorems over runs of astep.  Proved (rounds 6, 7): the argument itself
+   (leader_completeness_membership_change_partial, election_safety_membership_change_core_partial over the record minv;
+   membership_change_safety_of_state_invariant_partial over the state invariant MS) and these parts of "MS is inductive"
+   for the alphabet without snapshots: EM (round 6); (a) configuration_tracks_log; (d) leader_acks_come_from_members;
+   node-level summaries for AddNode / RemoveNode (step_summary_with_membership_change; Raft/LogMatchNodeQ.v with the
+   refined commit evidence); leader_sends_no_acknowledgement; the step lemmas of the re-based invariants ginvM, ackinvM,
+   voteinvM (each takes "one leader per term in the post-state history" as hypothesis).
+   OPEN, exactly — the remaining fields of MS at the touched node and the glue:
+   (1) the commit fields (clone of round 3's cminv with committed := cmr-based): commit index inside a committed prefix
+       for every node, leaderCommit of every AppEnts, peer-table justification; the no-truncation lemma uses
+       MS_leader_completeness of the pre-state; the leader case builds cmr from the refined lead_ev + (a) + (d), and
+       needs (d) in the form "ids of the peer table = members minus self after any same-term event of a leader,
+       whatever its final role" (a leader that steps down in leader_commit_up_to still sends its last heartbeats);
+       ms_lci then follows from the commit field and g_rec_node;
+   (2) ms_B, ms_F, ms_chain, ms_nd for the record a step adds: a newly elected leader's log is an lm-log (transfer
+       from records); a continuing leader appends either entries without configuration (Propose) or exactly one
+       stamped configuration entry (AddNode / RemoveNode accepted when settled) — needs the node-level log-shape lemma
+       p_log s' = L0, L0 ++ stamp es, or L0 ++ [configuration entry], crash variants included;
+   (3) one leader per term in the post-state history: the node elected in the step is winl over the pre-state ghost
+       lists (its votes are grants in GR or GL with casts), so election_safety_membership_change_core_partial applies;
+       a candidacy that wins in its first step needs CL, GR, CAST augmented by that candidacy (fields of minv re-checked);
+   (4) MS for initial states, the run-level theorems, non-vacuity runs, the combination with sstepS.
    On the real code all four clauses are evaluated after every event by the monitors of the Go simulation. *)
